@@ -68,6 +68,21 @@ fn container(c: &str, target: &str, v: Value) -> Result<R, String> {
     })
 }
 
+/// the way in only: build the Rust value that the model value denotes and convert it with From<T>
+fn inject(target: &str, v: &Value) -> Result<R, String> {
+    Ok(Ok(match (target, v) {
+        ("usize", Value::Int(n)) => Value::from(usize::try_from(*n).map_err(|_| format!("{n} is not a usize"))?),
+        ("f32", Value::Float(f)) => {
+            let x = *f as f32;
+            if !(x as f64 == *f || f.is_nan()) {
+                return Err(format!("{f} is not an f32"));
+            }
+            Value::from(x)
+        }
+        _ => return Err(format!("cannot inject {v:?} as {target}")),
+    }))
+}
+
 pub fn replay_conv(case: &J, rep: &mut Report) {
     let target = case["target"].as_str().unwrap_or("?").to_string();
     let cont = case["container"].as_str().unwrap_or("").to_string();
@@ -79,7 +94,16 @@ pub fn replay_conv(case: &J, rep: &mut Report) {
     let key = format!("conv:{}{}:{}:{}", if cont.is_empty() { String::new() } else { format!("{cont}<") }, target, case["src"]["t"].as_str().unwrap_or("?"), crate::ops::class_of(exp));
     rep.evaluations += 1;
     let s2 = src.clone();
-    let r = catch_unwind(AssertUnwindSafe(|| if cont.is_empty() { scalar(&target, s2) } else { container(&cont, &target, s2) })).map_err(panic_msg);
+    let r = catch_unwind(AssertUnwindSafe(|| {
+        if cont == "inject" {
+            inject(&target, &s2)
+        } else if cont.is_empty() {
+            scalar(&target, s2)
+        } else {
+            container(&cont, &target, s2)
+        }
+    }))
+    .map_err(panic_msg);
     let obs = match r {
         Err(p) => Obs::Panic(p),
         Ok(Err(e)) => return rep.tool_error(e),
